@@ -27,6 +27,7 @@ Implementation: AST-based async function detection with scoped_identifier path e
 
 from __future__ import annotations
 
+import re
 from dataclasses import dataclass
 from typing import TYPE_CHECKING
 
@@ -158,6 +159,8 @@ class RustBlockingAsyncAnalyzer(RustBaseAnalyzer):
             return None
 
         pattern = _classify_blocking_pattern(path)
+        if pattern is None and _is_imported_std_net_type_call(path, code):
+            pattern = "net-in-async"
         if pattern is None:
             return None
 
@@ -189,6 +192,28 @@ class RustBlockingAsyncAnalyzer(RustBaseAnalyzer):
             if child.type == "scoped_identifier":
                 return self.extract_node_text(child)
         return ""
+
+
+def _is_imported_std_net_type_call(path: str, code: str) -> bool:
+    """Check for Type::method calls whose type is imported from std::net in this file.
+
+    `TcpStream::connect(..)` is blocking when the file says `use std::net::TcpStream;`
+    (or `use std::net::{TcpListener, TcpStream};`), but not when TcpStream comes from tokio.
+
+    Args:
+        path: Call path (e.g., "TcpStream::connect")
+        code: Source code of the file
+
+    Returns:
+        True if the call targets a blocking std::net type imported by name
+    """
+    type_name = path.split("::", maxsplit=1)[0]
+    if "::" not in path or type_name not in _BLOCKING_NET_TYPES:
+        return False
+    use_pattern = (
+        r"use\s+std::net::(?:" + re.escape(type_name) + r"\b|\{[^}]*\b" + re.escape(type_name) + r"\b)"
+    )
+    return re.search(use_pattern, code) is not None
 
 
 def _classify_blocking_pattern(path: str) -> str | None:
